@@ -162,6 +162,7 @@ class Env(object):
         self.open_by = {}
         self.mutated = False
         self.policy_flip = 0
+        self.session_banner = None
         self.writers = None       # async twin: [(asyncio task, nbytes)] per bulk_write when set to a list
         self.write_hook = None    # called with the bytes of every bulk_write (harness-side effects tied to an instant of the execution)
 
